@@ -19,6 +19,7 @@ func rulesC08(c *Ctx) {
 		c.Tabled("wtf_storageonly", k)
 	}
 	w.run()
+	c08Round3(c)
 	c.Extra["wtf_functions"] = len(w.fns)
 	nW, nDF, nNSF := 0, 0, 0
 	for _, fn := range w.fns {
